@@ -116,6 +116,14 @@ func (f *Frame) bindByName(st *State, params []*types.Var, pos token.Pos, specia
 			vc.fail(pos, "spec parameter %q: no variable of that name is visible at this point of %s", p.Name(), f.fi.Key)
 		}
 		v := f.lookupVar(st, obj, pos)
+		// a spec parameter of interface type may name a variable of a concrete type that implements it (the variable of a
+		// type switch has a different type in every clause): the value is boxed, as in an assignment
+		if _, pIface := p.Type().Underlying().(*types.Interface); pIface {
+			if _, vIface := obj.Type().Underlying().(*types.Interface); !vIface && types.AssignableTo(obj.Type(), p.Type()) {
+				out = append(out, f.convert(v, obj.Type(), p.Type()))
+				continue
+			}
+		}
 		if want := f.sortOf(p.Type()); want != v.Sort {
 			vc.fail(pos, "spec parameter %q has sort %s but the variable has sort %s", p.Name(), want, v.Sort)
 		}
